@@ -1,5 +1,6 @@
 """C18 single-object messages carry the spec header and reject foreign messages."""
 import json
+import os
 import random
 
 from . import common
@@ -75,6 +76,11 @@ def check(run, replay_case=None):
                    {'id': '%s/h' % cid, 'op': 'so_history', 'sid': cid, 'cap': c['cap'],
                     'steps': [{k: v for k, v in s.items() if k not in ('expect', 'why')} for s in c['steps']]}])
     ev = run.exec_cases(b1)
+    if (not run.quick() or os.environ.get('VERIF_SANITIZERS') == '1') and replay_case is None:
+        # the single-object writer owns a self-referencing ResolvedOwnedSchema (generated unsafe code)
+        from .. import sanitizers
+        sanitizers.miri_stage(run, b1, ev, max_cases=int(os.environ.get('VERIF_MIRI_CASES', '36')), shards=12, what='single_object_ops',
+                              prefer=lambda c: ('sink_plan' in json.dumps(c)) + 0.0)
     b2 = []
     for c in cases:
         cid = c['cid']
